@@ -318,14 +318,24 @@ GrowOnly == [][/\ glyphs \subseteq glyphs' /\ requested \subseteq requested' /\ 
                /\ gsubed \subseteq gsubed' /\ colred \subseteq colred' /\ glyfed \subseteq glyfed' /\ retained \subseteq retained']_vars
 Done == pc = "done"
 
-RequestedPresentF(f, r, kept, nw(_), rescmap) ==       \* nw(g) = new glyph number of g (0 = none)
+(* A cmap as its consumers read it: glyph number 1 (glyph id 0) is the "missing glyph" (OpenType cmap chapter;
+   HarfBuzz and fontTools' own cmap reader both treat a mapping to glyph id 0 as no mapping). *)
+Readable(cm) == {cm[k] : k \in {k \in 1..Len(cm) : cm[k][2] # 1}}
+(* Named deviation GlyphZeroLost (finding C07/no-notdef-glyph-zero): without notdef_glyph and without retain_gids
+   the pipeline below (like the code) drops the original glyph 0 and renumbers the first retained glyph to glyph
+   id 0; the characters of that glyph are then absent for every consumer.  `except` is the set of glyphs whose
+   characters are exempted: {} states the property; ZeroGlyph(order, opts) states what the code achieves. *)
+ZeroGlyph(ord, o) == IF ~o.retain /\ Len(ord) >= 1 /\ ord[1] # 1 THEN {ord[1]} ELSE {}
+RequestedPresentF(f, r, kept, nw(_), rescmap, except) ==       \* nw(g) = new glyph number of g (0 = none)
   LET us == SeqRange(r.unicodes)
-      rc == SeqRange(rescmap)
+      rc == Readable(rescmap)
   IN /\ ReqGlyphs(f, r) \subseteq kept
      /\ \A g \in kept : nw(g) # 0
-     /\ \A k \in 1..Len(f.cmap) : (f.cmap[k][1] \in us /\ f.cmap[k][2] \in Universe(f)) =>
-           f.cmap[k][2] \in kept /\ <<f.cmap[k][1], nw(f.cmap[k][2])>> \in rc
-RequestedPresent == Done => RequestedPresentF(font, req, retained, LAMBDA g : NewOf(order, g), out.cmap)
+     /\ \A k \in 1..Len(f.cmap) : (f.cmap[k][1] \in us /\ f.cmap[k][2] \in Universe(f) /\ f.cmap[k][2] # 1) =>
+           f.cmap[k][2] \in kept /\ (f.cmap[k][2] \in except \/ <<f.cmap[k][1], nw(f.cmap[k][2])>> \in rc)
+RequestedPresent == Done => RequestedPresentF(font, req, retained, LAMBDA g : NewOf(order, g), out.cmap, ZeroGlyph(order, opts))
+(* the property itself holds wherever glyph 0 survives or keeps its place *)
+RequestedPresentStrict == (Done /\ (opts.notdef \/ opts.retain)) => RequestedPresentF(font, req, retained, LAMBDA g : NewOf(order, g), out.cmap, {})
 
 ClosureSufficient == Done => MinClosure(font, req, opts) \subseteq retained
 LfpIsLeast == pc = "request" => MinClosure(font, req, opts) = MinClosureDecl(font, req, opts)   \* the two definitions agree
